@@ -29,7 +29,7 @@ OBLIGATIONS = [
     _o("dur_decode_rt", 14, "[-]PThhHmmMssS, h <= 999, m,s < 60"), _o("dur_decode_days", 29, "[-]PnDTnHnMnS, d <= 999"),
     _o("dur_reject_prefix", 5, "strings of <= 3 characters over {-,P,T,1,H,M,S,D,x}"),
     _o("datetime_z", 1, "any isoformat() result of <= 8 characters"), _o("hexa_color_str", 23, "strings of <= 3 characters over {space,#,0,a,F}"),
-    _o("color_decode_form", 20, "hex2rgb on strings of exactly 7 characters over {#,+,-,_,space,0,a,F,x,U+0661}"),
+    _o("color_decode_form", 30, "hex2rgb on p + '0aF' + q with p, q of 2 characters over {#,+,-,_,space,0,a,F,x,U+0661}"),
     _o("color_decode_short", 5, "hex2rgb on any string of <= 8 characters whose length is not 7"),
 ]
 
